@@ -1,8 +1,21 @@
 #!/opt/veriftools/pyvenv/bin/python
 import json, jsonschema, sys, glob
-jsonschema.validate(json.load(open('/verif/MANIFEST.json')), json.load(open('/root/.vp/MANIFEST.schema.json')))
+m = json.load(open('/verif/MANIFEST.json'))
+jsonschema.validate(m, json.load(open('/root/.vp/MANIFEST.schema.json')))
 es = json.load(open('/root/.vp/EVIDENCE.schema.json'))
+bad = 0
 for f in sorted(glob.glob('/verif/evidence/*.json')):
     jsonschema.validate(json.load(open(f)), es)
     print('ok', f)
-print('manifest ok')
+# the committed evidence must be a record for the level the manifest claims (vp check 5 found a stale C04 file)
+for c in m['checks']:
+    pid = c.get('property_id') or c.get('id')
+    cat = c.get('level_claimed', {}).get('category')
+    try:
+        ev = json.load(open(f'/verif/evidence/{pid}.json'))
+    except FileNotFoundError:
+        print('MISSING evidence for', pid); bad += 1; continue
+    if ev.get('level') != cat or ev.get('exit_code') != 0:
+        print(f'STALE evidence {pid}: level {ev.get("level")} vs manifest {cat}, exit {ev.get("exit_code")}'); bad += 1
+print('manifest ok' if not bad else f'{bad} evidence problem(s)')
+sys.exit(1 if bad else 0)
